@@ -34,6 +34,8 @@ func init() {
 			{ID: "C04.13", Desc: "the matcher's position refers to the caller's list", Run: func(c *Ctx) { ruleMatcherIndexesCallersSlice(c, "C04.13") }, MinSites: 1},
 			{ID: "C04.14", Desc: "nominated field names are canonicalised on the store side as on the match side", Run: func(c *Ctx) { ruleVaryNamesCanonical(c, "C04.14") }, MinSites: 1},
 			{ID: "C04.15", Desc: "the background revalidation works on a deep copy of the caller's request (its header map included)", Run: func(c *Ctx) { ruleC20_6(c); renameRule(c, "C20.6", "C04.15") }, MinSites: 1},
+			{ID: "C04.16", Desc: "what the normaliser keeps of one list member does not share memory with a buffer reused for the next (parameters of a;x=1, b;y=2)", Run: func(c *Ctx) { ruleScratchReuseEscapes(c, "C04.16") }, MinSites: 1},
+			{ID: "C04.17", Desc: "the stored reference carries the resolved request values on every path", Run: func(c *Ctx) { ruleVariantResolvedOnEveryPath(c, "C04.17") }, MinSites: 1},
 		},
 	})
 }
